@@ -358,6 +358,56 @@ def overlay_rec(rng, spec, tries=40):
     return False
 
 
+def main_scope_nodes(spec):
+    """nodes that belong to the eagerly executed main pipeline: they reach the output without passing a
+    case -> consumer or candidate -> consumer edge"""
+    lazy_edges = set()
+    for n in spec['nodes']:
+        for _, m in n.get('params', ()):
+            if m[0] == 'Switch':
+                lazy_edges.update((c, n['name']) for _, c in m[3])
+            elif m[0] == 'OneOf':
+                lazy_edges.update((c, n['name']) for c in m[1])
+    pred = {}
+    for a, b in declared_edges(spec):
+        if (a, b) not in lazy_edges:
+            pred.setdefault(b, set()).add(a)
+    return _closure(pred, spec['output']) | {spec['output']}
+
+
+def gen_rec_inner(rng, faults=True, n_max=9, **kw):
+    """a recurrent subgraph whose path contains switches / one-ofs, while every reader of a path node (and of the
+    destination) outside the path belongs to the main pipeline"""
+    base = rng.choice(['switch', 'oneof', 'mix_main', 'switch_oneof'])
+    for _ in range(60):
+        spec = gen_constructs(rng, CFG[base], faults=faults, n_max=n_max, **kw)
+        if not overlay_rec(rng, spec):
+            continue
+        (dest, (start, _mx)), = list(_rec_decls(spec).items())[:1]
+        P = path_set(spec, start, dest)
+        main = main_scope_nodes(spec)
+        if dest not in main or start not in main:
+            continue
+        if any(a in P and b not in P and b not in main for a, b in declared_edges(spec)):
+            continue
+        nodes = {n['name']: n for n in spec['nodes']}
+        inner = any(m[0] in ('Switch', 'OneOf') for x in P for _, m in nodes[x].get('params', ()))
+        if not inner:
+            continue
+        spec['class'] = 'rec_inner'
+        return spec
+    return gen_rec(rng, faults=faults, n_max=n_max)
+
+
+def _rec_decls(spec):
+    out = {}
+    for n in spec['nodes']:
+        for _, m in n.get('params', ()):
+            if m[0] == 'Rec':
+                out[m[2]] = (m[1], m[3])
+    return out
+
+
 def gen_rec_mixed(rng, faults=True, n_max=9, **kw):
     """a recurrent subgraph laid over a program with switches / one-ofs (inside, around or beside the path)"""
     base = rng.choice(['switch', 'oneof', 'switch_shared', 'mix_main'])
@@ -740,6 +790,7 @@ def gen_hub(rng, faults=True, n_max=10, **kw):
 
 GENERATORS['hub'] = gen_hub
 GENERATORS['rec_mixed'] = gen_rec_mixed
+GENERATORS['rec_inner'] = gen_rec_inner
 
 CFG = {
     'switch': {'name': 'switch', 'constructs': ['switch'], 'shared': False, 'p_nest': 0.25, 'max_nest': 2},
